@@ -42,6 +42,9 @@ var grammarLines = []string{
 	"||example.org^$dnsrewrite=NOERROR;MX;10", "||example.org^$dnsrewrite=NOERROR;MX;", "||example.org^$dnsrewrite=NOERROR;SVCB;1", "||example.org^$dnsrewrite=NOERROR;HTTPS;1 .",
 	"||example.org^$dnsrewrite=NOERROR;HTTPS;1 . alpn", "||example.org^$dnsrewrite=NOERROR;PTR;", "||example.org^$dnsrewrite=NOERROR;A;", "||example.org^$dnsrewrite=;;;",
 	"||example.org^$client='", "||example.org^$client=~\"", "||example.org^$client=''", "||example.org^$client='a", "||example.org^$client=|", "||example.org^$ctag=~",
+	// blank-only elements of a list-valued option, in the middle and at the ends
+	"||example.org^$dnstype=A| |AAAA", "||example.org^$dnstype= |A", "||example.org^$dnstype=~ ", "||example.org^$ctag=a| |b", "||example.org^$client=a| |b",
+	"||example.org^$domain=a.com| |b.com", "||example.org^$denyallow=a.com| ", "||example.org^$dnstype=A||AAAA", "||example.org^$domain=a.com||b.com",
 	"||example.org^$domain=~", "||example.org^$denyallow=|", "||example.org^$dnstype=~", "||example.org^$client=~'", "$client='",
 	"*$domain=co.*,script", "||example.org^$denyallow=edu.*", "co.*##.y", "edu.*,~act.edu.*##.z", "/x$domain=uk.*|co.*", "[Adblock Plus 2.0]", "||пример.рф^", "xn--e1afmkfd.xn--p1ai", "||example.org^$popup",
 }
